@@ -103,7 +103,7 @@ def report(R, rec, prefix):
 
 
 # ------------------------------------------------------------------ end to end
-def e2e_module(order, calls, placement="after"):
+def e2e_module(order, calls, placement="after", exported_sig=None):
     """overloads in `order` returning 101, 102, ... by *signature identity* (sorted), callers c0.. for `calls`.
     placement: the callers come after all overloads, before all of them, or interleaved with them (the outcome must not
     depend on where a caller sits relative to the declarations either)"""
@@ -111,7 +111,8 @@ def e2e_module(order, calls, placement="after"):
     decls = []
     for sig in order:
         ps = ", ".join("%s p%d" % (type_str(t), i) for i, t in enumerate(sig))
-        decls.append("function f (%s) -> int {\n  return %d;\n}" % (ps, ident[sig]))
+        # (one overload of the set may be exported — two may not; its siblings stay internal: same resolution)
+        decls.append("%sfunction f (%s) -> int {\n  return %d;\n}" % ("export " if sig == exported_sig else "", ps, ident[sig]))
     callers = []
     for k, args in enumerate(calls):
         ps = ", ".join("%s a%d" % (type_str(t), i) for i, t in enumerate(args))
@@ -140,6 +141,9 @@ def value_for(t):
 
 def run_e2e_set(R, sigset, rng):
     arglists = [a for a in SIGS]
+    exported_sig = rng.choice(sorted(sigset, key=str)) if rng.random() < 0.3 else None
+    if exported_sig is not None:
+        R.count("e2e_sets_with_one_exported_overload")
     for order in itertools.permutations(sigset):
         ptypes = list(order)
         accepted = [a for a in arglists if ospec.resolve(ptypes, a) is not None]
@@ -151,7 +155,7 @@ def run_e2e_set(R, sigset, rng):
             todo.append(([a], False))
         while todo:
             calls, expect_ok = todo.pop()
-            src, ident = e2e_module(order, calls, rng.choice(["after", "before", "between"]))
+            src, ident = e2e_module(order, calls, rng.choice(["after", "before", "between"]), exported_sig)
             out = nslapi.compile_source(src)
             R.evaluations += 1
             R.count("e2e_modules")
